@@ -183,6 +183,28 @@ pub fn run_interp(c: &Case, bufs: &Bufs, budget: u64, trace_cap: usize) -> Inter
             Ok(v) => v,
             Err(e) => return Ran::Rejected(e),
         };
+        // a third of the cases with helpers are first executed with DECOY helpers (the function under
+        // each id shifted by one), then the right functions are registered: the execution that counts
+        // must call what is registered now (fixed VM excluded: bytes a program stores in the internal
+        // buffer legitimately survive an execution)
+        if !c.helpers.is_empty() && (c.prog.len() / 8) % 3 == 2 && c.kind != crate::engines::Kind::Fixed {
+            let ok = (|| -> Result<(), String> {
+                for (id, j) in &c.helpers {
+                    vm.register_helper(*id, helper_for((*j + 1) % hlp::NH, fam))?;
+                }
+                hooks::reset(budget, false);
+                let _ = vm.exec(bufs.pkt_raw(), bufs.mbuff_raw());
+                for (id, j) in &c.helpers {
+                    vm.register_helper(*id, helper_for(*j, fam))?;
+                }
+                Ok(())
+            })();
+            if let Err(e) = ok {
+                return Ran::Rejected(format!("re-registering helpers failed: {e}"));
+            }
+            bufs.reset(c);
+            hlp::log_reset();
+        }
         hooks::reset(budget, true);
         if trace_cap > 0 {
             hooks::set_trace_buffer(&mut trace);
